@@ -92,9 +92,23 @@ def check(run):
             cnt = cnt + ['but %s is rewritten between the count and the mapping' % ', '.join(changed)]
     run.ob('F2/fresh-blocks-fit-in-the-mapping', fn, 'count = (allocate_num_pages * _pagesize) / sizeof(union mmapped_block); mmap(NULL, allocate_num_pages * _pagesize, ...)', ok,
            tu.where(f), 'count = %s; mmap size = %s' % (cnt, sz))
-    fail = [n for n in g.nodes if n.kind == 'cond' and 'item ==' in cx.render(n.ast)]
+    # mmap reports failure with MAP_FAILED, which is (void *)-1, not NULL
+    def is_failed_test(n):
+        if n.kind != 'cond' or n.ast.get('kind') != 'BinaryOperator' or n.ast.get('opcode') != '==':
+            return False
+        a, b = cx.kids(n.ast)
+        sides = {cx.render(cx.strip(a, casts=True)).replace(' ', ''), cx.render(cx.strip(b, casts=True)).replace(' ', '')}
+        return 'item' in sides and bool(sides & {'-1', '(-1)'})
+    fail = [n for n in g.nodes if is_failed_test(n)]
     ok = bool(fail) and bool(loop) and all(loop[0].id not in g.reach([t]) for c in fail for t, l in c.succ if l == 'T')
-    run.ob('F2/failed-mapping-adds-nothing', fn, 'if (item == MAP_FAILED) return', ok, tu.where(f))
+    if ok and mm:
+        # and nothing is carved out of the result before that test has failed
+        passes = [(c.id, t, l) for c in fail for t, l in c.succ if l == 'F']
+        ok = loop[0].id not in g.reach([g.node_of(mm[0]).id], avoid_edges=passes)
+    other = [cx.render(n.ast) for n in g.nodes if n.kind == 'cond' and 'item ==' in cx.render(n.ast) and not is_failed_test(n)]
+    run.ob('F2/failed-mapping-adds-nothing', fn, 'if (item == MAP_FAILED) return', ok, tu.where(f),
+           'the result of mmap() is not compared with MAP_FAILED ((void *)-1) before blocks are carved out of it%s: a failed mapping puts closures at address -1 on the free list'
+           % (' (it is compared with: %s)' % ', '.join(other) if other else ''))
     # F3
     callers = rules.callers_of(tu, 'cffi_closure_free')
     names = sorted({c for c, _x in callers})
